@@ -81,7 +81,8 @@ def array_spec(draw, size, dtype, fuzzy=False, pool=None, mask_kind=None, payloa
     elif dtype == "float32":
         import numpy as _np
 
-        data = [float(_np.float32(x)) for x in data]  # keep the spec exactly representable in single precision
+        # keep the spec exactly representable in single precision, and finite (|x| <= 1e15 leaves room for squares and products in single precision)
+        data = [float(_np.float32(max(-1e15, min(1e15, x)))) for x in data]
     else:
         data = [float(x) for x in data]
     mask = draw(mask_for(size, mask_kind))
@@ -235,7 +236,7 @@ def unit_case(draw, cmds, max_rank=1, dtypes=("float64", "int64"), wild=False, m
     arrays = []
     first_dtype = None
     for i in range(n):
-        dtype = "float64" if fuzzy else draw(st.sampled_from(list(dtypes)))
+        dtype = draw(st.sampled_from([d for d in dtypes if d.startswith("float")] or ["float64"])) if fuzzy else draw(st.sampled_from(list(dtypes)))
         if same_dtype and first_dtype:
             dtype = first_dtype
         first_dtype = first_dtype or dtype
